@@ -27,3 +27,40 @@ Proof.
   assert (E : eval m (ELam ps body) d = Some [VFun ps body d]) by (subst m; reflexivity).
   cbn [eval]. rewrite E, H, L, Nat.eqb_refl. reflexivity.
 Qed.
+
+(* ---- partial application: the bindings of the call of a partial application and of the direct call agree ---- *)
+Lemma bind_all_ext : forall ps args e1 e2, env_eq e1 e2 -> env_eq (bind_all ps args e1) (bind_all ps args e2).
+Proof.
+  induction ps as [|p ps IH]; intros args e1 e2 H; [exact H|].
+  destruct args as [|a args]; [exact H|]. cbn [bind_all]. apply IH.
+  intros x. cbn [lookup]. destruct (Nat.eqb p x); [reflexivity|apply H].
+Qed.
+
+Lemma lookup_app_swap : forall (E : env) p v d, ~ In p (map fst E) ->
+  env_eq (E ++ (p, v) :: d) ((p, v) :: E ++ d).
+Proof.
+  induction E as [|[q w] E IH]; intros p v d H x; [reflexivity|].
+  cbn [app lookup]. cbn [map fst In] in H.
+  destruct (Nat.eqb q x) eqn:Eq.
+  - destruct (Nat.eqb p x) eqn:Ep; [|reflexivity].
+    apply Nat.eqb_eq in Eq, Ep. subst. tauto.
+  - rewrite (IH p v d) by tauto. reflexivity.
+Qed.
+
+Lemma partial_fill : forall ps slots d rest d' vs E,
+  partial ps slots d = Some (rest, d') -> length rest = length vs -> NoDup ps ->
+  (forall p, In p ps -> ~ In p (map fst E)) ->
+  env_eq (bind_all rest vs (E ++ d')) (bind_all ps (fill slots vs) (E ++ d)).
+Proof.
+  induction ps as [|p ps IH]; intros slots d rest d' vs E H L N D.
+  - destruct slots; cbn in H; [|discriminate]. injection H as <- <-. intros x. reflexivity.
+  - destruct slots as [|[v|] slots]; cbn [partial] in H; [discriminate| |].
+    + cbn [fill bind_all]. inversion N as [|? ? Np Nps]; subst.
+      intros x. rewrite (IH slots ((p, v) :: d) rest d' vs E H L Nps) by (intros q Hq; apply D; right; exact Hq).
+      apply bind_all_ext. apply lookup_app_swap. apply D. left. reflexivity.
+    + destruct (partial ps slots d) as [[rest' d'']|] eqn:P; [|discriminate]. injection H as <- <-.
+      destruct vs as [|v vs]; [discriminate|]. cbn [length] in L. injection L as L.
+      cbn [fill bind_all]. inversion N as [|? ? Np Nps]; subst.
+      apply (IH slots d rest' d'' vs ((p, v) :: E) P L Nps).
+      intros q Hq [Hq'|Hq']; [cbn in Hq'; subst; tauto|]. apply (D q); [right; exact Hq|exact Hq'].
+Qed.
